@@ -26,20 +26,24 @@ Expected(c) ==
 
 Init == l = 1 /\ bad = {} /\ nontrivial = 0
 
+(* bad holds line numbers only (small states); the verdict records are     *)
+(* built once, at the end                                                  *)
 Next ==
   /\ l <= Len(Trace)
   /\ LET c == Trace[l]
-         v == Failed(c, c.obs)
-     IN /\ bad' = IF v = {} THEN bad
-                  ELSE bad \cup {[line |-> l, id |-> c.id, reasons |-> SetToSeq(v), expected |-> Expected(c)]}
+     IN /\ bad' = IF Failed(c, c.obs) = {} THEN bad ELSE bad \cup {l}
         /\ nontrivial' = IF NonTrivial(c) THEN nontrivial + 1 ELSE nontrivial
   /\ l' = l + 1
 
 Spec == Init /\ [][Next]_vars
 
+Record(n) == LET c == Trace[n] IN
+  [line |-> n, id |-> c.id, reasons |-> SetToSeq(Failed(c, c.obs)), expected |-> Expected(c)]
+
 Done ==
   /\ TLCGet("stats").diameter - 1 = Len(Trace)
-  /\ JsonSerialize(OutFile, [lines |-> Len(Trace), nontrivial |-> TLCGet(3), bad |-> SetToSeq(TLCGet(1))])
+  /\ JsonSerialize(OutFile, [lines |-> Len(Trace), nontrivial |-> TLCGet(3),
+                             bad |-> LET ls == SetToSeq(TLCGet(1)) IN [i \in 1..Len(ls) |-> Record(ls[i])]])
 
 Export == IF l = Len(Trace) + 1 THEN TLCSet(1, bad) /\ TLCSet(3, nontrivial) ELSE TRUE
 =============================================================================
